@@ -22,9 +22,8 @@ git checkout -q -- .
 echo "demo clean rc=$rc_clean  demo mutated rc=$rc_mut  tests rc=$rc_tests"
 if [ "$rc_clean" = 0 ] && [ "$rc_mut" != 0 ] && [ "$rc_tests" = 0 ]; then
   mkdir -p $OUT
-  cp $M/patch.diff $OUT/patch.diff
-  cp $DEMO $OUT/
-  [ -f $M/README.md ] && cp $M/README.md $OUT/README.md
+  # everything the demonstration needs (extra sources, shims), but no logs
+  rsync -a --exclude '*.log' --exclude '__pycache__' --exclude '.*' --exclude 'build*' $M/ $OUT/
   echo "CONFIRMED -> $OUT (tests: $(tail -1 /tmp/pytest_$NAME.log))"
 else
   echo "NOT CONFIRMED"; exit 1
